@@ -346,6 +346,16 @@ func (x *Exec) applySpec(st *State, fs *FuncSpec, names []string, args []Val, si
 	env2 := &Env{x: x, st: st, old: pre, vars: vars}
 	for _, c := range fs.Ens {
 		env2.what = fmt.Sprintf("%s ensures (%s:%d)", fs.Name, shortFile(c.File), c.Line)
+		if c.Bound != "" {
+			// a universally quantified postcondition is instantiated at the caller's own skolem constants
+			// (the bound variables of the quantified clauses it has to prove itself): see skolemFor
+			for _, sk := range x.skolemTerms() {
+				vars[c.Bound] = intVal(sk)
+				st.assume(env2.evalBool(c.Expr))
+			}
+			delete(vars, c.Bound)
+			continue
+		}
 		st.assume(env2.evalBool(c.Expr))
 	}
 	if fs.Kind == "method" && len(args) > 0 {
